@@ -58,6 +58,9 @@ def main() -> None:
             sh(["git", "clean", "-fdq"], cwd=wt)
             rc0, o0 = sh([PY, str(demo)], cwd=wt, timeout=900)
             rc, o = sh(["git", "apply", str(patch)], cwd=wt)
+            if rc != 0:   # /repo has moved on since the change was written: try a three-way merge
+                rc, o = sh(["git", "apply", "-3", str(patch)], cwd=wt)
+                sh(["git", "reset", "-q"], cwd=wt)
             if rc != 0:
                 print(sid, "patch does not apply:", o[:200])
                 continue
